@@ -22,7 +22,7 @@ LEAN_MODULES = ["MesaModel.Props.C19"]
 THEOREMS = ["Mesa.Copy." + t for t in (
     "C19_cells_see_own_layers", "C19_copy_sees_own_layers", "C19_copy_faithful", "C19_copy_detached",
     "C19_spaces_never_share", "C19_original_untouched_by_copy", "C19_reject_unchanged")]
-COUNTS = {"quick": 400, "thorough": 12000}
+COUNTS = {"quick": 400, "thorough": 100000}
 HEADER_LINES = 1
 TRUSTED = [
     "Python's pickle / copy.deepcopy traversal and memo (each reachable object is reconstructed once) — exercised, not modelled",
